@@ -189,3 +189,61 @@ contract(F + '::BoundsEnforceLS._solve', ['C10'],
          assumed=APPLY_ASSUMED, inline=VEC_INLINE, native=native_solver('BoundsEnforceLS', False),
          canaries=[('full step applied after bounds enforcement instead of before',
                     ("        u += du\n\n        with Recording", "        with Recording"), 'pre@callee')])
+
+
+# ---------------------------------------------------------------------------------------------
+# LinesearchSolver._setup_solvers: the bounds the kernels enforce are the PHYSICAL bounds expressed in the solver's
+# scaled space, whatever ref / ref0.  One iteration of the per-variable loop, extracted mechanically on every run
+# (pyvc/extract.py make_fragment, '@loopbody(meta)'); statement taken from the property: for every physical value x
+# of element k,   lower_k <= x <= upper_k   <=>   LB[s0+k] <= (x - ref0)/(ref - ref0) <= UB[s0+k].
+def _bmeta(lower, upper):
+    return DictT({'y': DictT({'lower': lower, 'upper': upper, 'ref0': Real(), 'ref': Real()})})
+
+
+def native_setup_bounds(vals, np, om):
+    from pyvc.native_helpers import A, Fl
+    m = vals['abs2meta_out']['y']
+
+    def b(v):
+        if v is None:
+            return None
+        return A(v) if isinstance(v, dict) and '__arr__' in v else Fl(v)
+    n = len(A(vals['val']))
+    N = len(A(vals['system']['_outputs']['_data']))
+    ls = om.BoundsEnforceLS()
+    ls._lower_bounds = None
+    ls._upper_bounds = None
+    ls._xq = Fl(vals['self']['_xq'])
+
+    class Sys:
+        pass
+    s = Sys()
+    s._outputs = np.zeros(N)
+    s0 = int(vals['start'])
+    return dict(abs2meta_out={'y': {'lower': b(m['lower']), 'upper': b(m['upper']), 'ref0': Fl(m['ref0']), 'ref': Fl(m['ref'])}}, abs_name='y', val=np.zeros(n),
+                start=s0, end=s0, self=ls, system=s), dict(n=n, N=N, s0=s0, xq=Fl(vals['self']['_xq']))
+
+
+XQ = 'old(self._xq)'
+T = "((%s - abs2meta_out['y']['ref0']) / (abs2meta_out['y']['ref'] - abs2meta_out['y']['ref0']))" % XQ
+for _lo, _up in ((Arr('n'), Arr('n')), (Real(), Real()), (Arr('n'), None), (None, Real())):
+    LOK = None if _lo is None else ("abs2meta_out['y']['lower'][k]" if isinstance(_lo, Arr) else "abs2meta_out['y']['lower']")
+    UPK = None if _up is None else ("abs2meta_out['y']['upper'][k]" if isinstance(_up, Arr) else "abs2meta_out['y']['upper']")
+    phys = ' and '.join(x for x in (('%s <= %s' % (LOK, XQ)) if LOK else None, ('%s <= %s' % (XQ, UPK)) if UPK else None) if x)
+    box = "(result['self']._lower_bounds is None or result['self']._lower_bounds[s0 + k] <= %s) and (result['self']._upper_bounds is None or %s <= result['self']._upper_bounds[s0 + k])" % (T, T)
+    contract(F + '::LinesearchSolver._setup_solvers@loopbody(meta)', ['C10'],
+             dict(abs2meta_out=_bmeta(_lo, _up), abs_name='y', val=Arr('n'), start=Size('s0'), end=Size('s0'),
+                  self=Obj('LinesearchSolver', _lower_bounds=None, _upper_bounds=None, _xq=Real()), system=Obj('System', _outputs=Vec('N'))),
+             requires=["abs2meta_out['y']['ref'] != abs2meta_out['y']['ref0']", 's0 + n <= N', 'n >= 1',
+                       # magnitude envelope (np.inf is modelled as a real constant above every finite double; infinite bounds of the
+                       # missing side must stay beyond every scaled value): |x|, |ref|, |ref0| <= 1e100 and |ref - ref0| >= 1e-100
+                       'abs(self._xq) <= 10 ** 100', "abs(abs2meta_out['y']['ref']) <= 10 ** 100", "abs(abs2meta_out['y']['ref0']) <= 10 ** 100",
+                       "abs(abs2meta_out['y']['ref'] - abs2meta_out['y']['ref0']) * 10 ** 100 >= 1"],
+             ensures=['all(iff(%s, %s) for k in range(n))' % (phys, box),
+                      "result['start'] == s0 + n and result['end'] == s0 + n"],
+             modifies=['self._lower_bounds', 'self._upper_bounds'], native=native_setup_bounds, inline={'__len__'},
+             name=F + '::LinesearchSolver._setup_solvers[bounds of one variable: lower=%s, upper=%s]' % (type(_lo).__name__, type(_up).__name__),
+             canaries=[('bounds not exchanged for a negative scale ref - ref0 (the defect repaired in /repo)', ('if np.any(scale < 0):', 'if False:'), 'post', F + '::LinesearchSolver._setup_solvers')]
+             if isinstance(_lo, Real) else
+             [('upper bound scaled without subtracting ref0', ('var_upper = (var_upper - ref0) / scale', 'var_upper = var_upper / scale'), 'post', F + '::LinesearchSolver._setup_solvers')]
+             if isinstance(_lo, Arr) and isinstance(_up, Arr) else [])
